@@ -405,6 +405,20 @@ Fixpoint mon_trace (m : mstate) (n : nat) (l : list event)
   end.
 Definition spec_trace (l : list event) := mon_trace m0 O l (None, None, None).
 
+(* readers share: a reader's acquire blocks only while a writer is inside or registered
+   (so any number of readers may be inside together) *)
+Definition share_ok (m : mstate) (e : event) : bool :=
+  match e_kind e, e_what e with
+  | Rd, Blocked => negb (match in_w m, wait_w m with [], [] => true | _, _ => false end)
+  | _, _ => true
+  end.
+Fixpoint share_trace (m : mstate) (n : nat) (l : list event) : option nat :=
+  match l with
+  | [] => None
+  | e :: r => if share_ok m e then share_trace (fst (mon_event m e)) (S n) r else Some n
+  end.
+Definition spec_share (l : list event) : option nat := share_trace m0 O l.
+
 (* events of a schedule *)
 Section TraceEvents.
   Variable step : conf -> nat -> option conf.
@@ -524,10 +538,11 @@ Definition oracle_C16 (tag : N) (v : val) : val :=
   (* 2: [which; conf] -> successors with verdicts *)
   | 2, VL [VN w; c] =>
       match as_conf c with Some c' => vsucc (pick_step w) c' | None => vbad end
-  (* 3: [events] -> first index at which (exclusion, strong preference, preference as worded) fail *)
+  (* 3: [events] -> first index at which (exclusion, strong preference, preference as worded,
+        readers share) fail *)
   | 3, VL [es] =>
       match as_listof as_event es with
-      | Some l => let '(x, s, w) := spec_trace l in VL [vfirst x; vfirst s; vfirst w]
+      | Some l => let '(x, s, w) := spec_trace l in VL [vfirst x; vfirst s; vfirst w; vfirst (spec_share l)]
       | None => vbad
       end
   (* 4: [which; progs; schedule] -> the model's event trace of that schedule *)
